@@ -36,8 +36,11 @@ LEVEL_TEXT = ('static analysis: (D1) copy-on-write lost-write rule over cnvlib/s
               'depth 0. (D3c) transfer_fields as the whole-array methods call it -- a three-chromosome bin table with any edge chromosome wholly '
               "filtered out -- leaves every segment inside its own chromosome's bin span with positive length (no stretch to another chromosome's"
               " bins, no assertion failure); D3 also covers segments over antitarget / unnamed bins only (gene '-', not the previous segment's) "
-              'and D3b a bin whose weight equals min_weight (kept). Does not decide sortedness / non-overlap / probe sums of haar and HMM output,'
-              ' nor which bins the outlier filter drops.')
+              'and D3b a bin whose weight equals min_weight (kept). (CLI) the `segment` command line(s), through a model of argparse built from '
+              'the declarations in commands.py and the real _cmd_ body interpreted with readers, library step and writers stubbed: method, '
+              'threshold, --drop-low-coverage, --drop-outliers, -p (with and without a number), --smooth-cbs, the PAR genome and the VCF options '
+              'reach do_segmentation as given. Does not decide sortedness / non-overlap / probe sums of haar and HMM output, nor which bins the '
+              'outlier filter drops.')
 TECHNIQUE = "copy-on-write lost-write lint + must-flow; index-kind lint; abstract interpretation of the aggregation; registry / effect rules"
 
 TF = "cnvlib.segmentation.transfer_fields"
@@ -326,6 +329,22 @@ def d3b(chk, prog):
             continue
         want = [k for k in kinds if not (skip_low and k == "lowcov") and not (skip_out and k == "outlier") and not (k == "zero-weight") and not (min_weight and k == "light")]
         tb.cell(seen.get("bins") == want and arr.data.n == len(kinds), dict(skip_low=skip_low, skip_outliers=skip_out, min_weight=str(min_weight), null_bin_by=low_by, bins_segmented=seen.get("bins"), want=want))
+    # an arm that loses every bin to the filters yields no segment (its bins are not handed back as if they were segments)
+    for why, skip_low, min_weight in (("null coverage", True, 0), ("zero weight", False, 0), ("below min_weight", False, Fr(1, 2))):
+        W.reset()
+        rows = [dict(chromosome="chrY", start=i * 100, end=i * 100 + 100, gene="g", log2=(Term.sym(f"v{i}", -INF, -16) if why == "null coverage" else Term.sym(f"v{i}", -10, 10)), depth=Term.sym(f"d{i}", 1, INF),
+                     weight={"null coverage": Fr(9, 10), "zero weight": Fr(0), "below min_weight": Fr(1, 4)}[why]) for i in range(3)]
+        arr = make_ga("CopyNumArray", rows, {"sample_id": "S"}, index="any", exact=True)
+        model = Model()
+        seen = {}
+        model.prims["cnvlib.segmentation.none.segment_none"] = lambda it, cn, seen=seen: seen.setdefault("segmenter_called_on", cn.data.n) and cn
+        model.prims["cnvlib.segmentation.transfer_fields"] = lambda it, segarr, cnarr, *a, **k: segarr
+        it = Interp(prog, model)
+        out = tb.guard(lambda: it.run(fi.qn, [arr, "none", None, None, None, skip_low, 0, min_weight]), f"every bin filtered: {why}")
+        if out is None:
+            continue
+        n_out = out.data.n if isinstance(out, GA) else None
+        tb.cell(n_out == 0 and "segmenter_called_on" not in seen, dict(every_bin_filtered_by=why, rows_returned=n_out, segmenter_called=seen.get("segmenter_called_on")))
     tb.done("a bin removed by one filter is brought back by another (or a surviving bin is dropped): probes would not count the surviving bins")
 
 
@@ -541,6 +560,8 @@ def run(chk):
               "np.average = sum(x w)/sum(w); Executor.map preserves input order")
     d1(chk, prog)
     d2(chk, prog)
+    from . import C07
+    C07.d6(chk, prog)            # the aggregation pairs bins and segments per chromosome: by_shared_chroms (C07-D6 rule; the whole-array methods pass several chromosomes)
     d3(chk, prog)
     d3c(chk, prog)
     d3b(chk, prog)
@@ -561,6 +582,8 @@ _STRETCH = '''    # (Whole-genome methods: the edge chromosome's bins may all ha
         segments.data.iloc[-1, segments.data.columns.get_loc("end")] = bins_end
 '''
 MUTANTS = [
+    dict(name="cli: segment --drop-outliers fed from --drop-low-coverage", file="cnvlib/commands.py", old="        skip_outliers=args.drop_outliers,", new="        skip_outliers=args.drop_low_coverage,"),
+    dict(name="cli: segment -p without a number means 1", file="cnvlib/commands.py", old='P_segment.add_argument(\n    "-p",\n    "--processes",\n    nargs="?",\n    type=int,\n    const=0,', new='P_segment.add_argument(\n    "-p",\n    "--processes",\n    nargs="?",\n    type=int,\n    const=1,'),
     dict(name="regress: last segment stretched whatever its chromosome", file=_S, old="    if segments.chromosome.iat[-1] == cnarr.chromosome.iat[-1]:\n", new="    if True:\n"),
     dict(name="regress: first segment stretched whatever its chromosome", file=_S, old="    if segments.chromosome.iat[0] == bins_chrom:\n", new="    if len(segments):\n"),
     # (not a breaker: per arm the two chromosomes coincide, and the property asks no stretch of the whole-array methods)
